@@ -465,6 +465,12 @@ def case_sort(ctx, s: Subject, nest_name=IDENT_NEST):
     fj = frame_json(nf)
     names = [n for n, _ in s.ty]
     ks = rng.sample(names, rng.randint(1, min(2, len(names))))
+    # a field holding integers beyond 2**53 (exact as int64, colliding as float64) is worth sorting by
+    bigf = [n for n, t in s.ty if t == "int64" and any(isinstance(c, int) and not isinstance(c, bool) and abs(c) > 2**53
+                                                       for r in s.content["rows"] if r for nn, cs in r if nn == n for c in cs)]
+    if bigf and rng.random() < 0.8:
+        k0 = rng.choice(bigf)
+        ks = [k0] + [k for k in ks if k != k0][:rng.randint(0, 1)]
     qn = q(nest_name)
     by = [f"{qn}.{q(k)}" if qn != nest_name else f"{nest_name}.{k}" for k in ks]
     asc_form = rng.choice(["bool", "list"])
